@@ -14,6 +14,7 @@ package limited_rationality
 
 //@ func OrderAlternatives
 //@   property C01 C09 C11 C13 C12 C14 C20
+//@   indexsafe
 //@   fnparam generator ensures 0.0 <= result && result < 1.0
 //@   ensures [fresh_rearrangement] fresh(result) && fresh(*result) && len(*result) == len(*alternatives)
 //@   ensures [members] forall k int :: 0 <= k && k < len(*result) ==> exists j int :: 0 <= j && j < len(*alternatives) && (*result)[k] == (*alternatives)[j]
@@ -35,6 +36,7 @@ package limited_rationality
 
 //@ func PrepareSequentialRanking
 //@   property C01 C12 C13 C09 C11 C14 C20
+//@   indexsafe
 //@   requires [same_length] len(resultIds) == len(result)
 //@   ensures [one_entry_each] fresh(result0) && len(result0) == len(result) && forall i int :: 0 <= i && i < len(result) ==> result0[i].AlternativeResult == result[i]
 //@   ensures [links_next_only] forall i int :: 0 <= i && i < len(result) ==>
